@@ -544,6 +544,11 @@ impl CommandBuilder<'_> {
                 let mut stdout = io::stdout();
                 match stdout.write_all(&line).and_then(|()| stdout.flush()) {
                     Ok(()) => Ok(CommandResult::Success),
+                    // An echo writing into a pipe nobody reads is killed by SIGPIPE.
+                    #[cfg(unix)]
+                    Err(e) if e.kind() == io::ErrorKind::BrokenPipe => {
+                        Err(CommandExecutionError::Killed { signal: 13 })
+                    }
                     Err(e) => {
                         // What an echo that cannot write does: it fails.
                         let _ = writeln!(io::stderr(), "Error: echo: write error: {e}");
